@@ -1,6 +1,8 @@
 #!/usr/bin/env python3
 """equiv_rewrites.py : behaviour-preserving rewrites of /repo that must NOT make the named check alarm.
 Each entry is applied to /repo's working tree, the check is run, the file is restored. Exit 1 if any check alarms."""
+import os as _os
+_os.environ["VF_NO_EVIDENCE"] = "1"
 import subprocess, sys
 
 R = []
